@@ -46,9 +46,12 @@ def thresholds_2d():
 def gen_big2d(rng, cid, reps, thr):
     """Several client threads inside 2-D Booleans of big shared lazy CrossSections at once."""
     need = max([v for k, v in thr.items() if v <= 4096] + [1024])        # edges per Boolean (both operands together)
-    n0 = need // 4 + rng.randint(10, 60)                                     # strips per operand: 4 edges each -> each operand alone is above the threshold
-    setup = ["xstrips %d 1 %d 0.5 %d" % (n0, rng.choice([200, 280]), rng.choice([1, 0])),
-             "xstrips %d 0.75 %d 0.3 %d" % (n0 + rng.randint(20, 80), rng.choice([240, 300]), rng.choice([-1, 0]))]
+    # strips per operand: 4 edges each, two operands per Boolean -> need/8 strips put the Boolean just at the threshold;
+    # short strips keep the number of overlapping edge boxes (and the cost under TSan) moderate but well above 2 pairs
+    n0 = need // 8 + rng.randint(15, 40)
+    ln = rng.choice([4, 6, 8])
+    setup = ["xstrips %d 1 %d 0.5 %d" % (n0, ln, rng.choice([1, 0])),
+             "xstrips %d 0.75 %d 0.25 %d" % (n0 + rng.randint(5, 30), ln, rng.choice([-1, 0]))]
     T = rng.randint(3, 6)
     progs = []
     for t in range(T):
@@ -57,7 +60,7 @@ def gen_big2d(rng, cid, reps, thr):
             i = rng.randrange(2)
             r = rng.random()
             if r < 0.85:
-                ops.append("xbig %s %d %d %d" % (rng.choice("+-^"), i, i if rng.random() < 0.7 else 1 - i, rng.randint(5, 60)))
+                ops.append("xbig %s %d %d %d" % (rng.choice("+-^"), i, i if rng.random() < 0.7 else 1 - i, rng.randint(1, 3)))
             elif r < 0.93:
                 ops.append("xoff %d %s" % (i, rng.choice(["0.125", "-0.0625"])))
             else:
@@ -65,7 +68,7 @@ def gen_big2d(rng, cid, reps, thr):
         progs.append(ops)
     line = "CASE %s %d 0 | %s | %s" % (cid, reps, ",".join(setup), " | ".join(",".join(p) for p in progs))
     return {"id": cid, "line": line, "threads": T, "loose": False, "progs": progs, "setup": setup, "big2d": True,
-            "edges_per_operand": [4 * n0]}
+            "edges_per_boolean_at_least": 8 * n0}
 
 
 def gen_case(rng, cid, reps):
